@@ -278,7 +278,7 @@ func (x *run) waitAssigned(gen int) {
 				n++
 			}
 		}
-		if n >= x.o.splits {
+		if n >= x.o.splits-x.src.HeldLate() {
 			return
 		}
 		if time.Now().After(deadline) {
